@@ -63,7 +63,14 @@ def _compare(s):
     try:
         got = [(c, tuple(float(x) for x in a)) for c, a in parse_svg_path(s, exploded=True)]
     except ValueError:
-        return None
+        # the verdict is a function of the string: a second attempt must refuse it again
+        try:
+            again = list(parse_svg_path(s, exploded=True))
+        except ValueError:
+            return None
+        except Exception as e:  # noqa
+            return f"{s!r}: raises {type(e).__name__} on the second attempt (only ValueError may escape)"
+        return f"{s!r}: refused with ValueError the first time, parsed as {again} the second time"
     except Exception as e:  # noqa
         return f"{s!r}: raises {type(e).__name__} (only ValueError may escape)"
     if want is not None and got != [(c, tuple(float(x) for x in a)) for c, a in want]:
@@ -93,7 +100,7 @@ def strings(tier, seed):
             conforming += 1
         r = _compare(s)
         if r:
-            kind = "other-exception" if "raises" in r else ("leading-zeros" if any(t.lstrip("+-").startswith("0") and len(t.lstrip("+-")) > 1 and t.lstrip("+-")[1].isdigit() for t in s.replace(",", " ").replace("M", " ").replace("L", " ").replace("l", " ").split()) else "wrong-parse")
+            kind = "other-exception" if "raises" in r else "verdict-changes" if "second time" in r else ("leading-zeros" if any(t.lstrip("+-").startswith("0") and len(t.lstrip("+-")) > 1 and t.lstrip("+-")[1].isdigit() for t in s.replace(",", " ").replace("M", " ").replace("L", " ").replace("l", " ").split()) else "wrong-parse")
             key = f"grammar.strings:{kind}"
             if key not in seen_keys:
                 seen_keys.add(key)
